@@ -93,6 +93,7 @@ impl<const L: usize> EnvLike<L> for EnvW<L> {
             let a = self.0.get_orders();
             let b = self.0.get_orderbook().get_orders();
             a.len() == b.len() && a.iter().zip(b.iter()).all(|(x, y)| std::ptr::eq(*x, *y))
+                && (0..a.len()).all(|i| std::ptr::eq(self.0.order(i), a[i]) && self.0.order_status(i) == a[i].status)
         };
         *self.0.get_prices() == r.prices
             && *self.0.get_volumes() == r.volumes
